@@ -133,12 +133,28 @@ def check_program(shard, prog, base_extra, configs, choices_list, max_len=5, alp
                 alphabet.append(0x7a)
     # ---------- (b) joint walks
     for cfgv, m, ch in zip(configs, ms, changed):
-        def visit(word, tls, cfgs, cfgv=cfgv):
+        def visit(word, tls, cfgs, cfgv=cfgv, m=m):
             shard.event("evaluations")
             d = walk.compare(tls[0], tls[1], True, len(word))
             if d:
                 raise Failure("c05:am:" + d[0], "config %r vs baseline on input %s: %s\nbaseline events=%r\nconfig events=%r"
                               % (cfgv, word.hex(), d[1], tls[0].events[-6:], tls[1].events[-6:]), dict(replay, config=cfgv, input=word.hex()))
+            if mb.eof and tls[0].terminal is None and tls[1].terminal is None:
+                # end of input at this point: same result code, same actions, same outputs
+                try:
+                    ca, cb = cfgs[0].copy(), cfgs[1].copy()
+                    ra, rb = mb.end(ca), m.end(cb)
+                except (am_mod.Undefined, am_mod.Spin):
+                    return
+                shard.event("end_calls")
+                ea = [(e[0], walk.payload_of(e)) for e in ra.events if e[0] in walk.OBSERVABLE]
+                eb = [(e[0], walk.payload_of(e)) for e in rb.events if e[0] in walk.OBSERVABLE]
+                # events that one side already performed eagerly with the last byte are not repeated at end(): compare the totals
+                ta = [(k_, p_) for _, k_, p_ in tls[0].events] + ea
+                tb = [(k_, p_) for _, k_, p_ in tls[1].events] + eb
+                if ra.code != rb.code or ta != tb or (ra.code != 1 and ca.frozen_vars() != cb.frozen_vars()):
+                    raise Failure("c05:am:end-differs", "config %r vs baseline on input %s then end(): code %d vs %d\nbaseline events=%r\nconfig events=%r"
+                                  % (cfgv, word.hex(), ra.code, rb.code, ta[-5:], tb[-5:]), dict(replay, config=cfgv, input=word.hex(), end=True))
         try:
             stats = walk.joint_walk([mb, m], alphabet, max_len, visit, node_cap=4000)
         except am_mod.Undefined:
@@ -217,7 +233,15 @@ def config_st(draw):
 
 @st.composite
 def case_strategy(draw):
-    mode = draw(st.sampled_from(["plain", "plain", "plain", "yield", "eof"]))
+    mode = draw(st.sampled_from(["plain", "plain", "plain", "yield", "eof", "eof"]))
+    if mode == "eof":
+        from checks.c17 import eof_program
+        prog, argv = draw(eof_program())
+        prog.argv = argv
+        base_extra = ["-feof-support"]
+        configs = [["-O3"]] + [draw(config_st()) for _ in range(draw(st.integers(1, 2)))]
+        choices = draw(st.lists(st.lists(st.integers(0, 4095), min_size=2, max_size=20), min_size=1, max_size=2))
+        return prog, base_extra, configs, choices
     cfg = gen.GenConfig(max_depth=2, max_stmts=5, allow_yield=(mode == "yield"), allow_end=(mode == "eof"),
                         kinds={"yield": 2 if mode == "yield" else 0, "try": 4, "case": 4, "if": 3, "ifact": 2, "loop": 3, "hook": 3,
                                "assignstr": 2, "optional": 3}, wide_bytes=0.05)
@@ -257,9 +281,30 @@ def regress_worker(job):
     return shard
 
 
+def corpus_worker(job):
+    path, known = job
+    shard = Shard()
+    import shlex
+    src = open(path).read()
+    first = src.splitlines()[0] if src else ""
+    args = shlex.split(first[len("// args: "):]) if first.startswith("// args: ") else []
+    base_extra = [a for a in args if not a.startswith("-O")]
+    try:
+        check_program(shard, src, base_extra, [["-O1"], ["-O2"], ["-O3"]], [], max_len=4, do_c=False)
+    except Failure as f:
+        if f.sig in known:
+            shard.known_hits[f.sig] += 1
+        else:
+            shard.failures.append({"sig": f.sig, "what": "corpus file %s: %s" % (path, f.what), "replay": f.replay})
+    shard.event("corpus_files")
+    return shard
+
+
 def main(ctx):
     quick = ctx.tier == "quick"
     known = tuple(ctx.open_keys)
+    corpus = sorted(glob.glob(os.path.join(common.REPO, "example", "test", "*.ok.nmfu")))
+    ctx.pmap(corpus_worker, [(p, known) for p in corpus])
     reg = sorted(glob.glob(os.path.join(common.VERIF_DIR, "regress", "C05", "*.json")))
     ctx.pmap(regress_worker, [(p, known) for p in reg])
     n = 40 if quick else 800
